@@ -77,7 +77,8 @@ def check(run):
     run.cov["rule"] = ("same mixture generator as C02 (negative ions, polyatomics, several elements, random order); each converged state is compared with "
                        "(K) the extracted kernels fed the state's composition / E0 / dE, and (V) an independent evaluation: density sum n M / N_A, species "
                        "enthalpies with E0 from an independent implementation of the documented chains, enthalpy differences between two temperatures, "
-                       "heat capacity against the centred difference on fresh mixtures; distinct = (species names in order, T, P)")
+                       "heat capacity against the centred difference on fresh mixtures (default and explicit relative steps), and the regenerated heat_capacity model on the enthalpies and "
+                       "temperatures recorded inside calculate_heat_capacity; distinct = (species names in order, T, P)")
     run.cov["trusted_base"] = common.TRUSTED_COMMON + [
         "composition, E0 and dE enter the generated kernels as parameters (their freshness is C03's theorem)",
         "reference-energy model RefEnergy.v hand-written, tied by recorded iterations; its chain recursion is restated as theorems; "
@@ -95,6 +96,7 @@ def check(run):
         run.note(f"proof obligation failed: {res['error']}")
     okd, dlog = common.build_driver("mix")
     found, hist, runs, klines, kwhere = None, {}, [], [], []
+    hlines, hwhere = [], []
     for sps, x0, T, P, kind in sc.cases(rng, n):
         m, nd, warned = state(sps, x0, T, P)
         outcome = "warned" if warned is True else (warned if warned else "ok")
@@ -143,20 +145,40 @@ def check(run):
                         elif ind2 is not None and s1 != s2:
                             hist["shift_changed_between_states"] = hist.get("shift_changed_between_states", 0) + 1
         if bad is None and rng.random() < 0.25:
-            d = 0.001
+            # the relative step: mostly the documented default (argument omitted), sometimes an explicit other value
+            d = 0.001 if rng.random() < 0.6 else float(rng.choice([0.01, 2e-4, 0.003]))
             import warnings
+            seen_H = []
+            orig_H = m.calculate_enthalpy
+
+            def recording_H(_m=m, _o=orig_H, _s=seen_H):
+                t_at = float(_m.T)
+                v = _o()
+                _s.append((t_at, float(v)))
+                return v
+            m.calculate_enthalpy = recording_H   # instance attribute: calculate_heat_capacity's own calls go through it
             with warnings.catch_warnings(record=True) as wcp:
                 warnings.simplefilter("always")
                 try:
-                    cp = float(m.calculate_heat_capacity())
+                    cp = float(m.calculate_heat_capacity() if d == 0.001 else m.calculate_heat_capacity(d))
                 except Exception:  # noqa: BLE001
                     # an exception after the solver announced non-convergence at a perturbed temperature is an announced failure (C06), not a formula defect
                     if not any("Minimiser could not find" in str(x.message) for x in wcp):
                         raise
                     cp = float("nan")
+                finally:
+                    del m.calculate_enthalpy
             if any("Minimiser could not find" in str(x.message) for x in wcp):
                 hist["heat_capacity_solver_warned"] = hist.get("heat_capacity_solver_warned", 0) + 1
                 cp = float("nan")
+            if math.isfinite(cp):
+                # K: the regenerated `heat_capacity` (extracted, at doubles) on the enthalpies the implementation itself obtained
+                if len(seen_H) != 2:
+                    bad = ("calculate_heat_capacity evaluated the enthalpy %d times, the model twice" % len(seen_H), len(seen_H), 2)
+                else:
+                    (t_a, h_a), (t_b, h_b) = sorted(seen_H)
+                    hlines.append("heat_capacity " + " ".join(common.fhex(v) for v in (T, d, h_a, h_b)))
+                    hwhere.append((cp, t_a, t_b, d, [s.name for s in sps], T, P))
             exp = float("nan")
             if math.isfinite(cp):
                 lo = mpc.mixture.LTE(sps, x0, T * (1 - d), P, *solver.DEFAULT_CONTROLS)
@@ -203,6 +225,20 @@ def check(run):
             e = max([common.relerr(rho, mrho), common.relerr(H, mH, scale=abs(H) * 1e-3)] + [common.relerr(a, b) for a, b in zip(hs, mhs)])
             if e > TOL_K * 100:
                 dis.append({"what": "generated density / enthalpy kernels", "error": e, "species": names, "T": T, "P": P})
+        # heat capacity: regenerated model on the implementation's own two enthalpies; the model must ask its oracle at exactly
+        # the temperatures the implementation set, and return the implementation's number; documented default step
+        houts = common.run_driver("mix", hlines) if hlines else []
+        for (cp, t_a, t_b, d, names, T, P), o in zip(hwhere, houts):
+            mcp, mdef, mt_a, mt_b = (common.unhex(t) for t in o[:4])
+            run.cov["traces_validated_against_impl"] += 1
+            if mdef != 0.001:
+                dis.append({"what": "default relative temperature step of calculate_heat_capacity", "model": mdef, "documented": 0.001})
+            if (mt_a, mt_b) != (t_a, t_b):
+                dis.append({"what": "temperatures at which calculate_heat_capacity evaluates the enthalpy", "impl": [t_a, t_b], "model": [mt_a, mt_b],
+                            "species": names, "T": T, "P": P, "rel_delta_T": d})
+            elif common.relerr(cp, mcp) > 1e-13:
+                dis.append({"what": "generated heat_capacity kernel", "impl": cp, "model": mcp, "species": names, "T": T, "P": P, "rel_delta_T": d})
+        run.cov["heat_capacity_model_cases"] = len(hwhere)
         run.cov["correspondence_disagreements"] = len(dis)
         if dis:
             broken.append({"stage": "correspondence", "detail": dis[:3]})
